@@ -117,7 +117,7 @@ def gen_case(r, k, kind):
        kind 'dump': arbitrary events with a 4-byte id payload, ovnidump -x only."""
     # host names that are prefixes of one another, and loom suffixes that differ only in leading zeros (both legal:
     # the offset table is matched by the exact host name, and streams are ordered by the exact path)
-    hosts = r.shuffle(["h1", "h10", "h2", "h3", "nodeA", "node1", "node10"])[: r.range(1, 3)]
+    hosts = r.shuffle(["h1", "h10", "h2", "h3", "nodeA", "node1", "node10", "Node1", "node01", "1", "10"])[: r.range(1, 3)]   # (clkoff: case/zero variants)
     if r.chance(1, 5):
         hosts = r.choice([["node10", "node1"], ["h10", "h1"], ["h1", "h10"]])
     looms = []
@@ -190,7 +190,17 @@ def gen_case(r, k, kind):
         s["clocks"] = [c + d for c in s["clocks"]]
         expect = "gate?"
     order = r.shuffle(list(range(nstreams)))
-    return {"k": k, "kind": kind, "streams": streams, "offsets": offsets, "order": order, "expect": expect}
+    case = {"k": k, "kind": kind, "streams": streams, "offsets": offsets, "order": order, "expect": expect}
+    # ---- clkoff: the file itself; now and then an entry whose host has no loom (ovniemu must refuse the trace)
+    rt = r.fork("table")
+    if offsets is not None and kind == "emu" and expect == "valid" and rt.chance(1, 20):
+        ghost = rt.choice([hosts[0] + "0", hosts[0][:-1] or "z", hosts[0].swapcase(), "ghost", hosts[0] + ".dom"])
+        if ghost not in [hostname(l) for l in looms] and ghost != hosts[0]:
+            offsets[ghost] = rt.choice([0, 5, -5])
+            case["expect"] = "table-refused"
+    tb = case_table(rt, case)
+    case["table"] = None if tb is None else tb.decode("latin1")
+    return case
 
 
 def stream_events(case, s):
@@ -221,6 +231,9 @@ def prepare(case):
         s["cpu"] = per.get(s["loom"], 0)
         per[s["loom"]] = s["cpu"] + 1
     case["ncpu"] = per
+    if "table" not in case:                                   # clkoff: corpus cases carry the dict only
+        case["table"] = None if case["offsets"] is None else table_file(TABLE_HEADER, [
+            b"%-10d %-20s %-20d %-20f %-20f" % (i, h.encode(), o, float(o), 0.0) for i, (h, o) in enumerate(case["offsets"].items())]).decode("latin1")
     return case
 
 
@@ -236,11 +249,9 @@ def write_case(case, d):
         evs = [trace.ev_bytes(m, c, p) for (c, m, p) in stream_events(case, s)]
         tr.add_thread(s["loom"], s["pid"], s["tid"], meta, evs)
     tr.write(d, order=case["order"])
-    if case["offsets"] is not None:
-        with open(os.path.join(d, "clock-offsets.txt"), "w") as f:
-            f.write("%-10s %-20s %-20s %-20s %-20s\n" % ("rank", "hostname", "offset_median", "offset_mean", "offset_std"))
-            for i, (h, o) in enumerate(case["offsets"].items()):
-                f.write("%-10d %-20s %-20d %-20f %-20f\n" % (i, h, o, float(o), 0.0))
+    if case.get("table") is not None:                      # clkoff: the bytes prepared by case_table (the model reads the same)
+        with open(os.path.join(d, "clock-offsets.txt"), "wb") as f:
+            f.write(case["table"].encode("latin1"))
 
 
 DUMP_RE = re.compile(r"^\s*(-?\d+)  (...)  (\S+)  (.*)$")
@@ -390,7 +401,7 @@ def model_line(case, mode):
     items = []
     for i in case["order"]:
         s = case["streams"][i]
-        off = (case["offsets"] or {}).get(hostname(s["loom"]), 0)
+        off = case["model_offs"][i] if case.get("model_offs") is not None else (case["offsets"] or {}).get(hostname(s["loom"]), 0)   # clkoff
         evs = ",".join("%d.%d" % (c, j) for j, c in enumerate(s["clocks"])) or "-"
         items.append("%s:%d:%s" % (relpath(s).encode().hex(), off, evs))
     return "R %s %s" % (mode, ";".join(items))
@@ -407,7 +418,7 @@ def parse_model(ans):
 
 
 def case_public(case):
-    return {"kind": case["kind"], "offsets": case["offsets"], "creation_order": case["order"], "expect": case["expect"],
+    return {"kind": case["kind"], "offsets": case["offsets"], "clock_offsets_txt": case.get("table"), "creation_order": case["order"], "expect": case["expect"],
             "streams": [{"relpath": relpath(s), "clocks": s["clocks"]} for s in case["streams"]]}
 
 
@@ -425,6 +436,265 @@ def pbatch(exe, lines, timeout=1800):
     return out
 
 
+
+# ================================================================== BEGIN clkoff (clock-offset table: Emu/ClkoffDefs.v)
+# The table model (extracted: oracle/clkoff_drv.ml) is tied (a) in process to the real clkoff_load / loom_init_begin /
+# parse_clkoff_entry (harness/clkoff_h.c) on generated table files, (b) end to end: the offsets of the e2e cases come from
+# the model applied to the very bytes of clock-offsets.txt.  `table_lookup` is the independent reading of a WELL-FORMED
+# table used to judge the implementation ("the offset of the entry whose host IS the loom's host"): no model inside.
+
+from decimal import Decimal
+
+TABLE_HEADER = b"%-10s %-20s %-20s %-20s %-20s" % (b"rank", b"hostname", b"offset_median", b"offset_mean", b"offset_std")
+
+HOST_POOL = ["node1", "node10", "node100", "node01", "node001", "Node1", "NODE1", "nodE1", "node1a", "anode1", "1node", "n", "N",
+             "0", "00", "1", "01", "10", "x86-64", "h_1", "h-1", "node", "nod", "node11", "xeon01", "xeon1", "XEON01", "xeon010",
+             "a" * 120, "a" * 121, "\xe9t\xe9", "node1-ib0", "node1_", "_node1", "node1:0", "node1,2", "e5", "inf", "nan", "0x1"]
+
+
+def py_hostname(loom):
+    """loom.c set_hostname: up to the first '.'"""
+    return loom.split(".")[0]
+
+
+def table_lookup(table):
+    """Independent reading of a well-formed table (bytes): {host: offset}; offset = median truncated toward zero.
+    None if the file is not 'header + lines of 5 blank-separated columns' (then nothing is demanded)."""
+    if table is None:
+        return {}
+    lines = table.split(b"\n")
+    if lines and lines[-1] == b"":
+        lines.pop()
+    out = {}
+    for ln in lines[1:]:
+        if ln == b"":                     # clkoff.c documents that an empty line is skipped
+            continue
+        f = ln.split()
+        if len(f) != 5:
+            return None
+        try:
+            int(f[0])
+            med = Decimal(f[2].decode("latin1"))
+            Decimal(f[3].decode("latin1"))
+            Decimal(f[4].decode("latin1"))
+        except Exception:
+            return None
+        h = f[1].decode("latin1")
+        if h in out or not med.is_finite():
+            return None
+        out[h] = int(med)                 # int(Decimal) truncates toward zero, as (int64_t) does
+    return out
+
+
+def fmt_median(r, v, allow_frac=True):
+    """text of a median whose (int64_t) value is v, inside the model's exact domain"""
+    sign = "-" if v < 0 else r.choice(["", "", "", "+"])
+    a = abs(v)
+    t = str(a)
+    if r.chance(1, 8):
+        t = "0" * r.range(1, 3) + t
+    if allow_frac and a < 2 ** 40 and r.chance(1, 3):
+        t += "." + r.choice(["", "0", "000000", "5", "25", "999", "4999", "000001", "99975"])
+    elif r.chance(1, 10):
+        t += r.choice([".", ".0", ".000000"])
+    if v == 0 and r.chance(1, 4):
+        sign = r.choice(["-", "+", ""])
+        t = r.choice(["0", ".5", "0.75", "00", "0.000000", ".0"])
+    return sign + t
+
+
+def render_rows(r, rows, style):
+    """rows: [(index text, host, median text, mean text, std text)] -> list of lines (bytes, no newline)"""
+    out = []
+    for (i, h, med, mean, std) in rows:
+        if style == "sync":
+            ln = "%-10s %-20s %-20s %-20s %-20s" % (i, h, med, mean, std)
+        elif style == "compact":
+            ln = " ".join([i, h, med, mean, std])
+        elif style == "tabs":
+            ln = "\t".join([i, h, med, mean, std])
+        else:
+            ln = "  " + "   ".join([i, h, med, mean, std]) + " \t"
+        out.append(ln.encode("latin1"))
+    return out
+
+
+def gen_table_case(r, k):
+    """a well-formed table with tricky host names + looms; returns dict"""
+    nh = r.choice([1, 2, 2, 3, 3, 4, 6])
+    if r.chance(1, 2):
+        base = r.choice(["node1", "xeon01", "n", "0", "h-1", "Node1"])
+        fam = [base, base + "0", base + "1", base[:-1] or "z", base.upper(), base.lower(), base.swapcase(), "a" + base, base + "a", "0" + base,
+               base + "00", base + "-ib"]
+        fam = list(dict.fromkeys(fam))
+        hosts = r.shuffle(fam)[:nh]
+    else:
+        hosts = r.shuffle(list(HOST_POOL))[:nh]
+    mag = r.choice([0, 3, 1000, 10 ** 6, 10 ** 12, 2 ** 40 - 1, 2 ** 45, 2 ** 53])
+    rows = []
+    for i, h in enumerate(hosts):
+        v = r.range(-mag, mag) if mag else 0
+        if r.chance(1, 10):
+            v = r.choice([0, 1, -1, 2 ** 53, -2 ** 53, 2 ** 40 - 1, -(2 ** 40 - 1)])
+        idx = str(i) if not r.chance(1, 10) else r.choice(["-1", "+3", "007", str(2 ** 31), str(10 ** 12)])
+        rows.append((idx, h, fmt_median(r, v), "%f" % (float(v) + 0.1), r.choice(["0.000000", "135.286341", "1", "0"])))
+    # looms: 1-3 per host in the table, plus looms of hosts that are not in the table (related names first)
+    looms = []
+    for h in hosts:
+        for suf in r.shuffle(["", ".0", ".1", ".a.b", ".01", "." + h, ".."])[: r.choice([1, 1, 2, 3])]:
+            looms.append(h + suf)
+    others = [x for x in r.shuffle(list(HOST_POOL) + [h + "0" for h in hosts] + [h[:-1] for h in hosts if len(h) > 1] +
+                                   [h.swapcase() for h in hosts] + ["x" + h for h in hosts]) if x not in hosts]
+    for x in others[: r.choice([0, 0, 1, 2, 4])]:
+        looms.append(x + r.choice(["", ".0", ".z"]))
+    unknown = None
+    if r.chance(1, 6) and len(hosts) >= 1:
+        unknown = r.choice(hosts)                                  # an entry whose host has no loom: must be refused
+        looms = [l for l in looms if py_hostname(l) != unknown]
+    looms = r.shuffle(list(dict.fromkeys(looms)))
+    style = r.choice(["sync", "sync", "compact", "tabs", "lead"])
+    header = r.choice([TABLE_HEADER, TABLE_HEADER, b"# table", b"", b"0 node1 5 5 5", b"x" * 1022])
+    return {"k": k, "rows": rows, "looms": looms, "style": style, "header": header, "unknown": unknown,
+            "order": r.shuffle(list(range(len(rows))))}
+
+
+def table_file(header, lines, trailing=True):
+    return header + b"\n" + b"\n".join(lines) + (b"\n" if trailing and lines else b"")
+
+
+JUNK = ["abc", "1e", "1e+", "0x", "0x.", "0xg", "nan", "NaN", "inf", "INF", "infinity", "Infinity", "infinit", "infx", "nan(1)", "-", "+", ".", "-.",
+        "1.5.3", "1e5", "1E5", "1e-5", "0x1p3", "0x1P-2", "0x10", "1,5", "--1", "+-1", "1e400", "99999999999999999999", "0.99999999999999999999",
+        "1..2", ".e1", "e1", "1e1e1", "0x1.8", "0X1A", "1_000", "١", "1\v2", "5host"]
+
+
+def mutate_table(r, base):
+    """a malformed (or merely unusual) file derived from a well-formed case: (bytes, class)"""
+    lines = render_rows(r, base["rows"], base["style"])
+    header = base["header"]
+    kind = r.choice(["drop-col", "extra-col", "junk-field", "junk-field", "empty-line", "ws-line", "crlf", "long-line", "long-host", "dup-host",
+                     "no-header", "header-only", "empty-file", "no-final-newline", "nul-byte", "glue", "big-index", "long-header",
+                     "ws-line-first", "only-newlines", "form-feed"])
+    j = r.below(len(lines))
+    f = lines[j].split()
+    if kind == "drop-col":
+        n = r.range(0, 4)
+        lines[j] = b" ".join(f[:n])
+    elif kind == "extra-col":
+        lines[j] = lines[j] + b" " + r.choice([b"7", b"x", b"1 2 3", b"# comment"])
+    elif kind == "junk-field":
+        c = r.choice([0, 2, 2, 3, 4])
+        f[c] = r.choice(JUNK).encode("utf8")
+        lines[j] = b" ".join(f)
+    elif kind == "empty-line":
+        lines.insert(j, b"")
+    elif kind in ("ws-line", "ws-line-first"):
+        lines.insert(0 if kind == "ws-line-first" else j, r.choice([b" ", b"\t", b"\r", b"   \t ", b"\v", b"\x0c"]))
+    elif kind == "crlf":
+        lines = [l + b"\r" for l in lines]
+        if r.chance(1, 2):
+            lines.insert(j, b"\r")
+    elif kind == "long-line":
+        pad = b" " * r.choice([900, 1000, 1015, 1022, 1023, 1024, 1030, 2100])
+        c = r.range(0, 4)
+        lines[j] = b" ".join(f[:c]) + pad + b" ".join(f[c:])
+    elif kind == "long-host":
+        f[1] = b"h" * r.choice([1000, 1010, 1018, 1019, 1020, 1021, 1022, 1023, 1024, 1100, 2046, 2047])
+        lines[j] = b" ".join(f)
+    elif kind == "dup-host":
+        g = list(f)
+        g[0] = b"99"
+        g[2] = r.choice([f[2], b"12345"])
+        lines.insert(r.below(len(lines) + 1), b" ".join(g))
+    elif kind == "no-header":
+        return b"\n".join(lines) + b"\n", kind
+    elif kind == "header-only":
+        return header + (b"\n" if r.chance(1, 2) else b""), kind
+    elif kind == "empty-file":
+        return b"", kind
+    elif kind == "no-final-newline":
+        return table_file(header, lines, trailing=False), kind
+    elif kind == "nul-byte":
+        pos = r.below(len(lines[j]) + 1)
+        lines[j] = lines[j][:pos] + b"\x00" + lines[j][pos:]
+    elif kind == "glue":
+        lines[j] = f[0] + f[1] + b" " + b" ".join(f[2:])
+    elif kind == "big-index":
+        f[0] = r.choice([b"9223372036854775807", b"9223372036854775808", b"-9223372036854775808", b"-9223372036854775809", b"1" * 30])
+        lines[j] = b" ".join(f)
+    elif kind == "long-header":
+        header = b"h" * r.choice([1022, 1023, 1024, 1500]) + r.choice([b"", b" 9 tailhost 4 4 4"])
+    elif kind == "only-newlines":
+        lines = [b""] * r.range(1, 4) + lines[:j]
+    elif kind == "form-feed":
+        lines[j] = lines[j].replace(b" ", r.choice([b"\x0c", b"\v", b"\r"]), 1)
+    return table_file(header, lines), kind
+
+
+def tline(table, looms):
+    return "T %s %s" % ("N" if table is None else (table.hex() or "-"), ",".join(l.encode("latin1").hex() for l in looms) or "-")
+
+
+def norm_impl_vs_model(impl, modl):
+    """None when the harness answer equals the model's, up to the parts the model leaves unspecified"""
+    if modl.startswith("load-fail"):
+        return None if impl == "load-fail" else "model refuses the file (%s), implementation: %s" % (modl, impl[:200])
+    if " | " not in impl or " | " not in modl:
+        return "implementation %r, model %r" % (impl[:200], modl[:200])
+    il, ia = impl.split(" | ", 1)
+    ml, ma = modl.split(" | ", 1)
+    ie = il.split(" ", 1)
+    me = ml.split(" ", 1)
+    if ie[0] != me[0]:
+        return "entry count: implementation %s, model %s" % (ie[0], me[0])
+    ii = ie[1].split(";") if len(ie) > 1 and ie[1] else []
+    mm = me[1].split(";") if len(me) > 1 and me[1] else []
+    for a, b in zip(ii, mm):
+        fa, fb = a.split(":"), b.split(":")
+        if fa[:2] != fb[:2] or (fb[2] != "?" and fa[2] != fb[2]):
+            return "entry: implementation %s, model %s" % (a[:80], b[:80])
+    if ma == "unspec":
+        return None
+    if ma.startswith("apply-fail"):
+        return None if ia == "apply-fail" else "model refuses an entry (%s), implementation: %s" % (ma, ia[:200])
+    return None if ia == ma else "offsets: implementation %s, model %s" % (ia[:200], ma[:200])
+
+
+def table_spec(tc, table, answer):
+    """Independent decider for a WELL-FORMED table against the implementation's answer: every loom gets the median
+    (truncated) of the entry whose name IS its host name, 0 without entry."""
+    want = table_lookup(table)
+    if want is None:
+        return "harness: the generated table is not well-formed"
+    hosts = set(py_hostname(l) for l in tc["looms"])
+    if any(h not in hosts for h in want):
+        return None        # the property text demands nothing here; that ovniemu refuses is checked against the model (correspondence)
+    if " | offs=" not in answer:
+        return "a well-formed table is refused: %s" % answer[-200:]
+    got = answer.split(" | offs=", 1)[1]
+    got = [int(x) for x in got.split(",")] if got else []
+    exp = [want.get(py_hostname(l), 0) for l in tc["looms"]]
+    if got != exp:
+        bad = [(l, g, e) for l, g, e in zip(tc["looms"], got, exp) if g != e][:4]
+        return "loom offsets differ from the entry of the loom's host (loom, got, expected): %r" % (bad,)
+    return None
+
+
+def case_table(r, case):
+    """bytes of clock-offsets.txt for an e2e case (None: no file), lines in shuffled order and varied layout"""
+    if case["offsets"] is None:
+        return None
+    items = list(case["offsets"].items())
+    rows = []
+    for i, (h, o) in enumerate(items):
+        rows.append((str(i), h, fmt_median(r, o), "%f" % float(o), "%f" % 0.0))
+    rows = r.shuffle(rows) if r.chance(2, 3) else rows
+    lines = render_rows(r, rows, r.choice(["sync", "sync", "sync", "compact", "tabs", "lead"]))
+    if r.chance(1, 8):
+        lines.insert(r.below(len(lines) + 1), b"")            # an empty line is skipped
+    return table_file(TABLE_HEADER, lines)
+
+# ================================================================== END clkoff
+
 # ------------------------------------------------------------------ the check
 
 def run(chk):
@@ -433,8 +703,12 @@ def run(chk):
         "hand model of heap.h as an array heap (Emu/HeapDefs.v): compared with the real heap.h after every operation (positions through heap_get + pointer audit)",
         "hand model of player.c/stream.c clock handling and trace.c ordering (Emu/PlayerDefs.v): compared with the real ovnidump/ovniemu on generated traces",
         "extraction (ExtrOcamlBasic only) + OCaml 4.13 + oracle/merge_drv.ml; harness/heap_h.c; trace writer and PRV/ovnidump parsers in lib/",
-        "not modelled: the clock-offset table parser (clkoff.c, sscanf %lf) and loom hostname matching (system.c/loom.c) - the model starts from one integer offset per stream; "
-        "exercised end to end through clock-offsets.txt only",
+        "hand model of the clock-offset table (Emu/ClkoffDefs.v: fgets/sscanf of clkoff.c character by character as glibc 2.36 does in the C locale, "
+        "set_hostname of loom.c, parse_clkoff_entry/init_offsets of system.c): compared with the real clkoff_load/loom_init_begin/parse_clkoff_entry in process "
+        "(harness/clkoff_h.c, oracle/clkoff_drv.ml) and end to end (the offsets of the e2e model come from the model applied to the bytes of clock-offsets.txt)",
+        "double conversion of the median: modelled only where strtod + (int64_t) is exact whatever the rounding (no exponent; fraction zero and |x| <= 2^53, or "
+        "|x| < 2^40 and fraction <= 1 - 2^-12); other medians are OUnspec in the model and not compared; the copy loom -> stream (second loop of init_offsets) "
+        "and the optional-file logic of load_clock_offsets are covered end to end only",
         "not modelled: int64 overflow of clock + offset (undefined behaviour in C); inputs stay below 2^62",
         "uthash/utlist (DL_SORT) and nftw are not modelled: the model sorts the enumerated streams by strcmp of the relative path",
     ]
@@ -462,6 +736,72 @@ def run(chk):
 
     rng = chk.rng
     corr_broken = []
+
+    # ---------------------------------------------------------------- clkoff (a): the table model against the real functions, in process
+    corr_clk = []
+    hx2 = os.path.join(hdir, "clkoff_h-" + build.tree)
+    if not os.path.exists(hx2):
+        for f in os.listdir(hdir) if os.path.isdir(hdir) else []:
+            if f.startswith("clkoff_h-"):
+                os.remove(os.path.join(hdir, f))
+        common.cc_harness(hx2, [os.path.join(common.VERIF, "harness", "clkoff_h.c")], build, extra=build.libs_emu + ["-lm"])
+    oracle2 = None
+    try:
+        oracle2 = common.build_oracle("clkoff", "Extract_clkoff", "clkoff_drv.ml", "clkoff_x")
+    except Exception as e:
+        chk.notes.append("clkoff oracle unavailable: %r" % (e,))
+        if not getattr(chk, "proof_broken", None):
+            chk.proof_broken = {"kind": "extraction", "error": repr(e)[:500]}
+    tcases = []          # (class, tc, table bytes, well-formed?, twin index or None)
+    for j in range(chk.budget(2500, 30000)):
+        r = rng.fork("tab%d" % j)
+        tc = gen_table_case(r, j)
+        lines0 = render_rows(r, tc["rows"], tc["style"])
+        t0 = table_file(tc["header"], lines0)
+        tcases.append(("well-formed", tc, t0, True, None))
+        if len(lines0) > 1:                                       # the same lines in another order, the looms in another order
+            tc2 = dict(tc)
+            tc2["looms"] = r.shuffle(list(tc["looms"]))
+            tcases.append(("well-formed:shuffled", tc2, table_file(tc["header"], [lines0[i] for i in tc["order"]]), True, len(tcases) - 1))
+        for _ in range(2):
+            tb, kind = mutate_table(r, tc)
+            tcases.append(("unusual:" + kind, tc, tb, False, None))
+    tl = [tline(tb, tc["looms"]) for (_, tc, tb, _, _) in tcases]
+    timpl = pbatch(hx2, tl)
+    tmodl = pbatch(oracle2, tl) if oracle2 else [None] * len(tl)
+    ntv = 0
+    for n, ((cls, tc, tb, wf, twin), ti, tm) in enumerate(zip(tcases, timpl, tmodl)):
+        chk.case(("TAB", tl[n]))
+        chk.count("table:" + cls)
+        chk.count("table:impl=%s" % ("load-fail" if ti == "load-fail" else "apply-fail" if ti.endswith("apply-fail") else "ok" if " | offs=" in ti else "other"))
+        if tm is not None and " | unspec" in tm:
+            chk.count("table:model-unspecified-number")
+        why = None
+        if wf:
+            why = table_spec(tc, tb, ti)
+            if why is None and twin is not None and " | offs=" in ti and " | offs=" in timpl[twin]:
+                a = dict(zip(tcases[twin][1]["looms"], timpl[twin].split(" | offs=", 1)[1].split(",")))
+                b = dict(zip(tc["looms"], ti.split(" | offs=", 1)[1].split(",")))
+                if a != b:
+                    why = "the offsets of the looms depend on the order of the table lines / of the looms: %r vs %r" % (sorted(a.items())[:6], sorted(b.items())[:6])
+            if why is None and twin is not None and (" | offs=" in ti) != (" | offs=" in timpl[twin]):
+                why = "acceptance of the table depends on the order of its lines / of the looms"
+        if why is not None and ntv < 4:
+            ntv += 1
+            chk.violation("clkoff:" + hashlib.md5(tl[n].encode()).hexdigest()[:12],
+                          "clock-offset table applied wrongly (real clkoff_load + parse_clkoff_entry in process): %s" % why,
+                          {"clock_offsets_txt": tb.decode("latin1"), "looms": tc["looms"], "impl": ti[:1500], "model": (tm or "")[:1500],
+                           "how": "echo 'T <table hex> <loom hex,...>' | build/harness/clkoff_h-*"})
+        if tm is not None:
+            d = norm_impl_vs_model(ti, tm)
+            if d is not None:
+                corr_clk.append((cls, tb[:300], tc["looms"][:8], d))
+        if wf and tm is not None and " | unspec" in tm:
+            corr_clk.append(("generator left the modelled numeric domain", tb[:300], tm[:200]))
+    k = len(tcases) // 2
+    chk.sample({"op": "clock-offset table", "class": tcases[k][0], "clock_offsets_txt": tcases[k][2].decode("latin1")[:400], "looms": tcases[k][1]["looms"][:6],
+                "impl": timpl[k][:300], "model": (tmodl[k] or "")[:300]})
+    chk.coverage["tables_validated_against_impl"] = len(tcases)
 
     # ---------------------------------------------------------------- (a) heap
     scripts = []
@@ -519,6 +859,27 @@ def run(chk):
     finally:
         shutil.rmtree(wd, ignore_errors=True)
         shutil.rmtree(wd2, ignore_errors=True)
+    # ---- clkoff (b): the per-stream offsets of the model come from the table model applied to the bytes on disk;
+    #      the deciders read the table with table_lookup (independent), not from the generator's bookkeeping
+    ol = [tline(None if c["table"] is None else c["table"].encode("latin1"), [s["loom"] for s in c["streams"]]) for c in cases]
+    oans = pbatch(oracle2, ol) if oracle2 else [None] * len(ol)
+    for c, oa in zip(cases, oans):
+        c["model_table"] = oa
+        c["model_offs"] = None
+        if oa is not None and " | offs=" in oa:
+            t = oa.split(" | offs=", 1)[1]
+            c["model_offs"] = [int(x) for x in t.split(",")] if t else []
+        lk = table_lookup(None if c["table"] is None else c["table"].encode("latin1"))
+        if lk is None or (c["offsets"] or {}) != lk:
+            corr_clk.append(("e2e generator: table bytes do not say what the generator meant", c.get("table"), c["offsets"]))
+        else:
+            c["offsets"] = lk if c["table"] is not None else None
+        lh = set(hostname(s["loom"]) for s in c["streams"])
+        c["table_refused"] = any(h not in lh for h in (lk or {}))
+        if oa is not None and c["model_offs"] is None and not c["table_refused"]:
+            corr_clk.append(("e2e: the table model does not give offsets for a well-formed table", c.get("table"), oa[:300]))
+        if oa is not None and c["model_offs"] is not None and c["table_refused"]:
+            corr_clk.append(("e2e: the table model accepts an entry without loom", c.get("table"), oa[:300]))
     mlines = []
     for c in cases:
         mlines.append(model_line(c, "D"))
@@ -608,7 +969,12 @@ def run(chk):
             e = r["emu"]
             so, nn, gt = side_conditions(c, corrected=True)
             chk.count("e2e:emu-verdict=%s" % e["verdict"])
-            if so and nn and gt:
+            if c.get("table_refused"):                            # clkoff: an entry without loom - the model refuses, so must ovniemu
+                chk.count("e2e:table-entry-without-loom")
+                if not (e["verdict"] == "err-other" and "cannot find loom with hostname" in e["err"]):
+                    corr_clk.append(("e2e: entry without loom not refused by ovniemu", case_key(c), pub, e["verdict"], e["err"][-300:]))
+                me = None
+            elif so and nn and gt:
                 # the property's hypotheses hold: the replay must complete and satisfy the spec
                 why = None
                 if e["verdict"] != "ok" or e["nproc"] != nev:
@@ -649,6 +1015,13 @@ def run(chk):
                           "model and implementation disagree on %d inputs, none of which violates the property's spec" % len(corr_broken),
                           {"correspondence": "heap/player model vs heap.h / ovnidump / ovniemu",
                            "disagreements": [repr(x)[:1500] for x in corr_broken[:20]]}, found_input=False)
+    if corr_clk:
+        chk.coverage["clkoff_disagreements"] = [repr(x)[:600] for x in corr_clk[:10]]
+        if not [v for v in chk.violations if v[0] != KEY_DUMP_OFFSETS]:
+            chk.violation("broken-correspondence:clkoff",
+                          "clock-offset table: model and implementation disagree on %d inputs, none of which violates the property's spec" % len(corr_clk),
+                          {"correspondence": "Emu/ClkoffDefs.v vs clkoff.c / loom.c / system.c (harness/clkoff_h.c, ovniemu)",
+                           "disagreements": [repr(x)[:1500] for x in corr_clk[:20]]}, found_input=False)
     chk.coverage["traces_validated_against_impl"] = len(cases)
     chk.coverage["heap_scripts"] = len(lines)
     chk.coverage["exhaustive"] = False
